@@ -39,7 +39,7 @@ Proof. exact perkey_visit_keeps_prev. Qed.
    computation depends on *)
 Example C16_nonvacuous :
   let h := [OpVarMap [(1, 5); (2, 7)]%Z; OpVar 100;
-            OpPerMapi 0 None (BindFn [] [([TMap 1 [] [OLocal 1 0; OOuter 1]], OLocal 0 0)]);
+            OpPerMapi 0 None (BindFn [] [([TMap 1 [] [OLocal 1 0; OOuter 1]], OLocal 0 0)]) false;
             OpObserve 2; OpStabilise; OpRead 0;
             OpSetMap 0 [(1, 5); (2, 8); (3, 1)]%Z; OpStabilise; OpRead 0;
             OpSet 1 200; OpStabilise; OpRead 0;
